@@ -88,6 +88,15 @@ def run(ctx):
                 ctx.fail("correspondence", f"space_charge_correction(r={r}) = {v} but the model raises", inp=desc); continue
             mv = unbits(t[1]); it = int(t[2])
             iters[it] = iters.get(it, 0) + 1
+            # hypotheses of C20.correction_self_consistent on the executable (Float) model: the loop left (not exhausted) at a positive corrected
+            # energy, with positive current, b_d != 0, t_c >= 0 — counted so that the theorem is seen not to be vacuous on the inputs drawn —
+            # and, at r = 0, its first conclusion (the returned value *is* the loop's last value) re-checked on the model's own output
+            if r == 0.0 and len(t) >= 7:
+                m_new, m_old, m_re, m_phi0 = (unbits(x) for x in t[3:7])
+                hyp = t[-1] != "exhausted" and e + m_old > 0 and p[0] > 0 and p[1] != 0 and p[5] >= 0 and p[2] >= 0
+                ctx.count("self_consistent_hypotheses_met" if hyp else "self_consistent_hypotheses_not_met")
+                if hyp and np.isfinite(mv) and not (abs(mv - m_new) <= 4e-16 * abs(m_new) and m_phi0 > 0 and m_re > 0):
+                    ctx.fail("correspondence", f"model: correction at r=0 is {mv!r} but the loop's last value is {m_new!r} (phi0={m_phi0!r}, r_e={m_re!r})", inp=desc)
             if np.isfinite(v):
                 ctx.seen((p, e, r))
             if not ((np.isnan(v) and np.isnan(mv)) or abs(mv - v) <= 1e-10 * abs(v)):
